@@ -119,7 +119,103 @@ let pure file =
   List.iter (fun (k, v) -> Printf.printf "COUNT %s %d\n" k v) names;
   if !mism > 0 || !propfail > 0 then exit 1
 
+(* ---- scheduler-driven cases:  model prog.. | sched.. | step ; step ; ..   (see harness/src/conc.rs)
+        and list-valued functions:  @name args.. => results..                                   *)
+let replays : (string, (z list -> z list -> z list list)) Hashtbl.t = Hashtbl.create 8
+let listfuns : (string, (z list -> z list)) Hashtbl.t = Hashtbl.create 8
+
+let ints_of (s : string) : BZ.t list =
+  String.split_on_char ' ' s |> List.filter (fun x -> x <> "") |> List.map BZ.of_string
+
+let show (l : BZ.t list) = String.concat " " (List.map BZ.to_string l)
+
+let split_on (sep : string) (s : string) : string list =
+  (* split on a single-character separator given as a string of length 1 *)
+  String.split_on_char sep.[0] s
+
+let conc file =
+  let ic = open_in file in
+  let cases = ref 0 and steps = ref 0 and mism = ref 0 and propfail = ref 0 and lf = ref 0 in
+  let sites : (string, int) Hashtbl.t = Hashtbl.create 64 in
+  let per_model : (string, int) Hashtbl.t = Hashtbl.create 8 in
+  let lineno = ref 0 in
+  (try
+     while true do
+       let line = input_line ic in
+       incr lineno;
+       if String.length line >= 8 && String.sub line 0 8 = "PROPFAIL" then begin
+         incr propfail;
+         if !propfail <= 20 then print_endline line
+       end else if String.length line > 0 && line.[0] = '@' then begin
+         (* @name args => results *)
+         let sp = String.index line ' ' in
+         let name = String.sub line 1 (sp - 1) in
+         let rest = String.sub line sp (String.length line - sp) in
+         (match Str.bounded_split (Str.regexp_string "=>") rest 2 with
+          | [a; r] ->
+            let f = try Hashtbl.find listfuns name with Not_found -> failwith ("unknown list function " ^ name) in
+            let got = List.map z_of_coq (f (List.map coq_of_z (ints_of a))) in
+            let want = ints_of r in
+            incr lf;
+            Hashtbl.replace per_model name (1 + (try Hashtbl.find per_model name with Not_found -> 0));
+            if not (List.length got = List.length want && List.for_all2 BZ.equal got want) then begin
+              incr mism;
+              if !mism <= 10 then
+                Printf.printf "MISMATCH line %d @%s %s : implementation=[%s] model=[%s]\n" !lineno name (String.trim a) (show want) (show got)
+            end
+          | _ -> failwith ("bad line: " ^ line))
+       end else if String.length line > 0 then begin
+         match split_on "|" line with
+         | [hd; sch; obs] ->
+           let hd_toks = String.split_on_char ' ' hd |> List.filter (fun x -> x <> "") in
+           let model = List.hd hd_toks in
+           let prog = List.map BZ.of_string (List.tl hd_toks) in
+           let sched = ints_of sch in
+           let want = List.map ints_of (split_on ";" obs) in
+           let f = try Hashtbl.find replays model with Not_found -> failwith ("unknown model " ^ model) in
+           let got = List.map (List.map z_of_coq) (f (List.map coq_of_z prog) (List.map coq_of_z sched)) in
+           incr cases;
+           Hashtbl.replace per_model model (1 + (try Hashtbl.find per_model model with Not_found -> 0));
+           let rec cmp i g w =
+             match g, w with
+             | [], [] -> ()
+             | gs :: gr, ws :: wr ->
+               incr steps;
+               (match ws with
+                | site :: _ ->
+                  let k = model ^ ":" ^ BZ.to_string site in
+                  Hashtbl.replace sites k (1 + (try Hashtbl.find sites k with Not_found -> 0))
+                | [] -> ());
+               if List.length gs = List.length ws && List.for_all2 BZ.equal gs ws then cmp (i + 1) gr wr
+               else begin
+                 incr mism;
+                 if !mism <= 10 then begin
+                   Printf.printf "MISMATCH line %d model=%s step=%d thread=%s : implementation=[%s] model=[%s]\n" !lineno model i
+                     (try BZ.to_string (List.nth sched i) with _ -> "?") (show ws) (show gs);
+                   Printf.printf "  CASE %s\n" line
+                 end
+               end
+             | _, _ ->
+               incr mism;
+               if !mism <= 10 then Printf.printf "MISMATCH line %d model=%s : step counts differ (model %d, implementation %d)\n" !lineno model (List.length got) (List.length want)
+           in
+           cmp 0 got want
+         | _ -> failwith ("bad case line: " ^ line)
+       end
+     done
+   with End_of_file -> ());
+  close_in ic;
+  Printf.printf "SUMMARY cases=%d steps=%d listfun_lines=%d mismatches=%d propfail=%d distinct_sites=%d\n" !cases !steps !lf !mism !propfail (Hashtbl.length sites);
+  Hashtbl.iter (fun k v -> Printf.printf "MODEL %s %d\n" k v) per_model;
+  let ss = Hashtbl.fold (fun k v acc -> (k, v) :: acc) sites [] |> List.sort compare in
+  List.iter (fun (k, v) -> Printf.printf "SITE %s %d\n" k v) ss;
+  if !mism > 0 || !propfail > 0 then exit 1
+
+let () =
+  Hashtbl.replace replays "ebr" ebr_replay
+
 let () =
   match Array.to_list Sys.argv with
   | _ :: "pure" :: file :: _ -> pure file
-  | _ -> prerr_endline "usage: driver pure <file>"; exit 2
+  | _ :: "conc" :: file :: _ -> conc file
+  | _ -> prerr_endline "usage: driver (pure|conc) <file>"; exit 2
